@@ -65,7 +65,12 @@ def c18_nontrivial(c, ms):
 CONFIG = dict(
     modules=["SigModel.Props.C18"],
     theorems=["SigModel.Proxy." + t for t in [
-        "C18_constants",
+        "C18_constants", "C18_accept_needs_valid_token", "C18_valid_token_accepted",
+        "C18_step_session_needs_token", "C18_session_needs_token", "C18_resume_needs_live_id",
+        "C18_nothing_before_hello", "C18_refused_hello_no_effect", "C18_nothing_before_hello_seq",
+        "C18_cleanup", "C18_ended_stays_ended", "C18_cleanup_after_end", "C18_bye_ends_session",
+        "C18_expire_ends_sessions", "C18_mcu_loss", "C18_mcu_loss_run",
+        "C18_delete_owner_only", "C18_delete_owner_only_run", "C18_created_owned",
     ]],
     generated=["Proxy"],
     harness=dict(pkg="proxy", test="TestVerifC18", go="go1.26"),
